@@ -308,7 +308,7 @@ func inList(s string, l []string) bool {
 func TestTwins(t *testing.T) {
 	pbt.Run(t, pbt.Sub[Case]{
 		Name: "twins", Quick: 60000, Thorough: 4000000,
-		EnumDesc: fmt.Sprintf("complete cross product of %d item sources x %d twin makers x %d value-changing transformers x %d operand shapes x both eras; after genesis operands of 2^20 bytes (thorough: 2^16 .. 2^20+1) through the byte-wise transformers with a twin on the data or alt stack", len(sources), len(makers), len(transformers), len(shapes)),
+		EnumDesc: fmt.Sprintf("complete cross product of %d item sources x %d twin makers x %d value-changing transformers x %d operand shapes x both eras; after genesis also every maker x transformer on numbers of 64 / 1024 / 4096 bytes (thorough: 33 .. 65536) that are negative, positive, negative zero or all ones, and operands of 2^20 bytes (thorough: 2^16 .. 2^20+1) through the byte-wise transformers with a twin on the data or alt stack", len(sources), len(makers), len(transformers), len(shapes)),
 		Enum: func(tier string, yield func(Case)) {
 			// very large operands (after genesis only): 2^16, 2^20-1, 2^20, 2^20+1 bytes through the
 			// byte-wise transformers, with a twin on the data or the alt stack
@@ -328,6 +328,46 @@ func TestTwins(t *testing.T) {
 					for _, tr := range transformers {
 						if inList(m.name, hugeMakers) && inList(tr.name, hugeTr) {
 							yield(twinProgram(sources[0], m, tr, x, true, 0))
+						}
+					}
+				}
+			}
+			// long operands (after genesis): every maker x every transformer, numbers of 64 .. 4096
+			// bytes (thorough: up to 65536) that are negative, positive, negative zero or all ones -
+			// an opcode that works on the item in place above some length changes the twin
+			longSizes := []int{64, 1024, 4096}
+			if tier == "thorough" {
+				longSizes = []int{33, 64, 255, 256, 520, 521, 1023, 1024, 1025, 1500, 4096, 65536}
+			}
+			for _, n := range longSizes {
+				for k := 0; k < 4; k++ {
+					x := make([]byte, n)
+					for i := range x {
+						x[i] = byte(i*5 + 1)
+					}
+					switch k {
+					case 0: // negative, minimally encoded
+						x[n-1] = 0x80 | 0x15
+					case 1: // positive
+						x[n-1] = 0x15
+					case 2: // negative zero
+						for i := range x {
+							x[i] = 0
+						}
+						x[n-1] = 0x80
+					default:
+						for i := range x {
+							x[i] = 0xff
+						}
+					}
+					for _, s := range sources {
+						for _, m := range makers {
+							for _, tr := range transformers {
+								if n > 1100 && (tr.name == "MUL" || tr.name == "DIV" || tr.name == "MOD") && tier != "thorough" {
+									continue
+								}
+								yield(twinProgram(s, m, tr, x, true, 0))
+							}
 						}
 					}
 				}
